@@ -362,7 +362,8 @@ class error_999_visitor(pyx12.error_visitor.error_visitor):
             seg_base.set('01-2', '%i' % (err_ele.subele_pos))
         if err_ele.repeat_pos:
             seg_base.set('01-3', '%i' % (err_ele.repeat_pos))
-        if err_ele.ele_ref_num:
+        if err_ele.ele_ref_num and err_ele.ele_ref_num.isdigit():
+            # IK402 is numeric: a composite (C023) has no data element number
             seg_base.set('02', err_ele.ele_ref_num)
         seg_str = seg_base.format('~', '*', ':')
         for (err_cde, err_str, bad_value) in err_ele.errors:
